@@ -245,6 +245,9 @@ class Printer(object):
             self.mark(p, pf)
         if pl['children']:
             self.mark(pl, first)
+            # the grammar lets a list end with a comma (parameter COMMA <empty list>): layout, not structure
+            if self.choose(('trailing-comma', id(pl)), [False, False, False, True]):
+                self.punct(',')
 
     # -- statements -----------------------------------------------------------------------------------
     def block(self, b):
@@ -283,6 +286,8 @@ class Printer(object):
                 self.punct(':')
                 self.expr(it['expression'])
                 self.mark(it, pf)
+            if es['event_data']['children'] and self.choose(('trailing-comma', id(es)), [False, False, False, True]):
+                self.punct(',')
             self.punct(')')
         self.mark(es, first)
 
